@@ -75,7 +75,9 @@ def gen_config(rng):
     cfg["_entity_strings"] = ent
     cfg["userid"] = caller_str(rng, 32, ent)
     if rng.random() < 0.7:
-        cfg["org"] = caller_str(rng, 32, ent)
+        # half of the time an ORG from a tiny pool, so that several client instances in one process share an ORG
+        # while differing in FID (or having none)
+        cfg["org"] = rng.choice(["POOLORG1", "POOLORG2", "Pool Org & Co"]) if rng.random() < 0.5 else caller_str(rng, 32, ent)
         if rng.random() < 0.7:
             cfg["fid"] = caller_str(rng, 32, ent)
     elif rng.random() < 0.3:
